@@ -320,8 +320,15 @@ def run_c05(R, tier, rng):
                 if ne and len(ne) == n:
                     C.cmp(f"{meth} keepdims {dt} {ls}", meth + "/keepdims", nt, lambda: obs1(getattr(mk(), meth)(axis=-1, keepdims=True)),
                           lambda: {"array": [[key(f(r))] for r in rows], "dtype": str(f(np.array([1], dtype=dt)).dtype)})
+                if ne:      # no axis: the reduction over all elements, wherever the empty rows are; also with values of one sign only
                     flat = np.array([v for r in X for v in r], dtype=dt)
-                    C.cmp(f"np.{meth} axis=None {dt} {ls}", meth + "/axis=None", nt, lambda: key(f(mk())), lambda: key(f(flat)))
+                    C.cmp(f"np.{meth} axis=None {dt} {ls}", meth + "/axis=None", nt, lambda: key(f(mk())), lambda: key(f(flat)), py=f"np.{meth}(RaggedArray({X}, dtype='{dt}'))")
+                    C.cmp(f"{meth}() {dt} {ls}", meth + "/axis=None", nt, lambda: key(getattr(mk(), meth)()), lambda: key(f(flat)), py=f"RaggedArray({X}, dtype='{dt}').{meth}()")
+                    if dt != "bool" and rep < 2:
+                        for sgn in ((-1, 1) if not dt.startswith("uint") else (1,)):
+                            Xs = [[sgn * (abs(int(v)) % 7 + 2) if not dt.startswith("float") else sgn * (abs(v) + 1.5) for v in r] for r in X]
+                            flats = np.array([v for r in Xs for v in r], dtype=dt)
+                            C.cmp(f"np.{meth} axis=None one-sign {sgn} {dt} {ls}", meth + "/axis=None", nt, lambda: key(f(RA(Xs, dt))), lambda: key(f(flats)), py=f"np.{meth}(RaggedArray({Xs}, dtype='{dt}'))")
             if ne:
                 for meth in ("argmax", "argmin"):
                     f = getattr(np, meth)
@@ -373,6 +380,21 @@ def run_c07(R, tier, rng):
                     return ra_obs(np.unique(mk(), axis=-1))
                 C.cmp("unique " + tagc, "unique", nt, lambda: uq_impl(False), lambda: uq(False), py=f"np.unique(RaggedArray({X}, dtype='{dt}'), axis=-1)")
                 C.cmp("unique+counts " + tagc, "unique", nt, lambda: uq_impl(True), lambda: uq(True), py=f"np.unique(RaggedArray({X}, dtype='{dt}'), axis=-1, return_counts=True)")
+                # other spellings of the same calls: positive axis, the order n given positionally, the defaults (n = 1; the last axis)
+                if rep == 0 and vals_name == "small":
+                    d1 = lambda: rows_obs([np.diff(r) for r in rows], np.diff(np.array([], dtype=dt)).dtype)
+                    C.cmp("diff default-n " + tagc, "diff/spelling", nt, lambda: ra_obs(np.diff(mk(), axis=-1)), d1, py=f"np.diff(RaggedArray({X}, dtype='{dt}'), axis=-1)")
+                    C.cmp("diff defaults " + tagc, "diff/spelling", nt, lambda: ra_obs(np.diff(mk())), d1, py=f"np.diff(RaggedArray({X}, dtype='{dt}'))")
+                    C.cmp("diff axis=1 " + tagc, "diff/spelling", nt, lambda: ra_obs(np.diff(mk(), 2, 1)), lambda: rows_obs([np.diff(r, 2) for r in rows], np.diff(np.array([], dtype=dt), 2).dtype),
+                          py=f"np.diff(RaggedArray({X}, dtype='{dt}'), 2, 1)")
+                    C.cmp("unique axis=1 " + tagc, "unique/spelling", nt, lambda: ra_obs(np.unique(mk(), axis=1)), lambda: uq(False), py=f"np.unique(RaggedArray({X}, dtype='{dt}'), axis=1)")
+                    C.cmp("sort axis=1 " + tagc, "sort/spelling", nt, lambda: ra_obs(mk().sort(axis=1)), lambda: rows_obs([np.sort(r, kind="stable") for r in rows], dt), py=f"RaggedArray({X}, dtype='{dt}').sort(axis=1)")
+                    C.cmp("sort default " + tagc, "sort/spelling", nt, lambda: ra_obs(mk().sort()), lambda: rows_obs([np.sort(r, kind="stable") for r in rows], dt), py=f"RaggedArray({X}, dtype='{dt}').sort()")
+                    C.cmp("add.accumulate axis=1 " + tagc, "accumulate/spelling", nt, lambda: ra_obs(np.add.accumulate(mk(), axis=1)),
+                          lambda: rows_obs([np.add.accumulate(r) for r in rows], np.add.accumulate(np.array([], dtype=dt)).dtype), py=f"np.add.accumulate(RaggedArray({X}, dtype='{dt}'), axis=1)")
+                    if dt in ints:
+                        C.cmp("cumsum axis=1 " + tagc, "cumsum/spelling", nt, lambda: ra_obs(np.cumsum(mk(), axis=1)),
+                              lambda: rows_obs([np.cumsum(r) for r in rows], np.cumsum(np.array([], dtype=dt)).dtype), py=f"np.cumsum(RaggedArray({X}, dtype='{dt}'), axis=1)")
                 for k in range(0, 5):
                     if dt == "bool" and k > 0 and False: continue
                     C.cmp(f"diff n={k} " + tagc, "diff", nt, lambda: ra_obs(np.diff(mk(), n=k, axis=-1)),
@@ -410,12 +432,12 @@ def run_c08(R, tier, rng):
                 f = getattr(np, fn)
                 C.cmp(f"{fn} {tagc}", fn, nt, lambda: ra_obs(f(mk())), lambda: rows_obs([np.full(l, fillv, dtype=dt) for l in ls], dt), py=f"np.{fn}(RaggedArray({X}, dtype='{dt}'))")
             C.cmp(f"empty_like {tagc}", "empty_like", nt, lambda: (lambda e: [np.asarray(e.lengths).tolist(), str(e.dtype)])(np.empty_like(mk())), lambda: [ls, dt])
-            if n and max(ls) > 0:
+            if True:        # also when every row is empty, or there is no row: a matrix with no columns
                 for side in ("right", "left"):
                     fv = 7 if dt != "bool" else True
-                    m = max(ls)
-                    C.cmp(f"padded {side} {tagc}", "padded/" + side, nt, lambda: kl(mk().as_padded_matrix(side=side, fill_value=fv)),
-                          lambda: kl(np.array([(r + [fv] * (m - len(r))) if side == "right" else ([fv] * (m - len(r)) + r) for r in X], dtype=dt)),
+                    m = max(ls + [0])
+                    C.cmp(f"padded {side} {tagc}", "padded/" + side, nt, lambda: (lambda p_: [kl(p_), list(p_.shape), str(p_.dtype)])(mk().as_padded_matrix(side=side, fill_value=fv)),
+                          lambda: [kl(np.array([(r + [fv] * (m - len(r))) if side == "right" else ([fv] * (m - len(r)) + r) for r in X], dtype=dt).reshape(n, m)), [n, m], dt],
                           py=f"RaggedArray({X}, dtype='{dt}').as_padded_matrix(side='{side}', fill_value={fv})")
             C.cmp(f"nonzero {tagc}", "nonzero", nt, lambda: [kl(a) for a in np.nonzero(mk())],
                   lambda: [[i for i, r in enumerate(X) for j, v in enumerate(r) if np.dtype(dt).type(v) != 0], [j for i, r in enumerate(X) for j, v in enumerate(r) if np.dtype(dt).type(v) != 0]],
@@ -451,6 +473,25 @@ def run_c08(R, tier, rng):
                           lambda: rows_obs([np.array(r[:e], dtype=dt) for r, e in zip(X, en)], dt))
                     C.cmp(f"rslice starts-only {tagc} {st}", "ragged_slice/ragged", nt, lambda: ra_obs(ragged_slice(mk(), starts=np.array(st))),
                           lambda: rows_obs([np.array(r[s:], dtype=dt) for r, s in zip(X, st)], dt))
+                # the same call twice on ONE array object: the array (its rows, its geometry) and the index vectors are left as they were
+                st = [rng.randint(0, l) for l in ls]; en = [rng.randint(s, l) for s, l in zip(st, ls)]
+                selfobs = lambda: rows_obs([np.array(r, dtype=dt) for r in X], dt)
+                def twice(op):
+                    a = mk(); r1 = op(a); mid = ra_obs(a); r2 = op(a)
+                    return [r1, mid, r2, ra_obs(a)]
+                def rs_twice():
+                    sa, ea = np.array(st), np.array(en)
+                    out = twice(lambda a: ra_obs(ragged_slice(a, sa, ea)))
+                    return out + [sa.tolist(), ea.tolist()]
+                rs_spec = lambda: rows_obs([np.array(r[s_:e_], dtype=dt) for r, s_, e_ in zip(X, st, en)], dt)
+                C.cmp(f"rslice twice {tagc} {st} {en}", "ragged_slice/twice-on-one-object", nt, rs_twice, lambda: [rs_spec(), selfobs(), rs_spec(), selfobs(), st, en],
+                      py=f"a = RaggedArray({X}, dtype='{dt}'); ragged_slice(a, np.array({st}), np.array({en})); a; ragged_slice(a, ...) again; a")
+                nzs = lambda: [[i for i, r in enumerate(X) for j, v in enumerate(r) if np.dtype(dt).type(v) != 0], [j for i, r in enumerate(X) for j, v in enumerate(r) if np.dtype(dt).type(v) != 0]]
+                C.cmp(f"nonzero twice {tagc}", "nonzero/twice-on-one-object", nt, lambda: twice(lambda a: [kl(x) for x in a.nonzero()]), lambda: [nzs(), selfobs(), nzs(), selfobs()],
+                      py=f"a = RaggedArray({X}, dtype='{dt}'); a.nonzero(); a; a.nonzero(); a")
+                c0 = lambda: rows_obs([np.array(r, dtype=dt) for r in X + X], dt)
+                C.cmp(f"concat twice {tagc}", "concatenate/twice-on-one-object", nt, lambda: twice(lambda a: ra_obs(np.concatenate([a, a]))), lambda: [c0(), selfobs(), c0(), selfobs()],
+                      py=f"a = RaggedArray({X}, dtype='{dt}'); np.concatenate([a, a]); a; np.concatenate([a, a]); a")
         # 1-D and 2-D inputs (dtype rotates)
         dt = dts[si % len(dts)]
         L = 1 + si % 7
@@ -493,6 +534,12 @@ def run_c09(R, tier, rng):
                   py=f"RaggedArray([[{big}, 2.0]] + {nsmall} rows starting with 1.0, dtype='{dt}').sum(axis=0)")
             C.cmp(f"mean(axis=0) {dt}/big+small n={nsmall}", "colmean-precision", True, lambda: [key(float(np.dtype(dt).type(x))) for x in RA(X, dt).mean(axis=0)],
                   lambda: [key(float(np.dtype(dt).type(e / c))) for e, c in zip(exact, cnt)], py=f"RaggedArray([[{big}, 2.0]] + {nsmall} rows of 2.0s, dtype='{dt}').mean(axis=0)")
+    MIN, MAX = -2 ** 63, 2 ** 63 - 1
+    for X in ([[MIN], [1]], [[MIN, 5], [1], [2, -3]], [[MAX], [-1], []], [[MIN + 1, 0], [-1, MAX], [0, -MAX]], [[1], [MIN], [1], [1]]):
+        m_ = max(len(r) for r in X)
+        exact = [sum(r[j] for r in X if len(r) > j) for j in range(m_)]
+        C.cmp(f"sum(axis=0) int64 extremes {X}", "colsum/int64-extremes", True, lambda: [int(x) for x in RaggedArray(X, dtype=np.int64).sum(axis=0)], lambda: exact, py=f"RaggedArray({X}, dtype=np.int64).sum(axis=0)")
+        C.cmp(f"np.sum(axis=0) int64 extremes {X}", "colsum/int64-extremes", True, lambda: [int(x) for x in np.sum(RaggedArray(X, dtype=np.int64), axis=0)], lambda: exact)
     for si, ls in enumerate(sh):
         n = len(ls); nt = n >= 2
         m = max(ls)
@@ -520,6 +567,17 @@ def run_c09(R, tier, rng):
                 if vn == "small" or n <= 3:
                     C.cmp("mean(axis=0) " + tagc, "colmean", nt, lambda: [key(float(x)) for x in mk().mean(axis=0)],
                           lambda: [key(float(np.mean(np.array([r[j] for r in X if len(r) > j], dtype=dt)))) for j in range(m)], py=f"RaggedArray({X}, dtype='{dt}').mean(axis=0)")
+                if vn == "small" and rep < 3:
+                    # the column aggregates asked twice of ONE object, and of an object derived from it (shared geometry): nothing is remembered wrongly
+                    cs_ = lambda: [key(float(x)) if dt.startswith("float") else int(x) for x in colsum()]
+                    def twice():
+                        a = mk()
+                        c1 = [int(x) for x in a.col_counts()]; c2 = [int(x) for x in a.col_counts()]; s1 = canon_sum(a.sum(axis=0)); s2 = canon_sum(a.sum(axis=0))
+                        m1 = [key(float(x)) for x in a.mean(axis=0)]; m2 = [key(float(x)) for x in a.mean(axis=0)]
+                        c3 = [int(x) for x in (a == a).col_counts()]; c4 = [int(x) for x in a.col_counts()]
+                        return [c1, c2, s1, s2, m1 == m2, c3, c4, c1]          # c1 again: the first answer is not changed afterwards
+                    C.cmp("column aggregates twice " + tagc, "twice-on-one-object", nt, twice, lambda: [counts, counts, cs_(), cs_(), True, counts, counts, counts],
+                          py=f"a = RaggedArray({X}, dtype='{dt}'); a.col_counts() x2; a.sum(axis=0) x2; a.mean(axis=0) x2; (a == a).col_counts(); a.col_counts()")
                 for j in range(min(m, 5)):
                     C.cmp(f"get_column_values({j}) " + tagc, "get_column_values", nt, lambda: ra_obs(mk().get_column_values(j)),
                           lambda: {"array": kl(np.array([r[j] for r in X if len(r) > j], dtype=dt)), "dtype": dt}, py=f"RaggedArray({X}, dtype='{dt}').get_column_values({j})")
@@ -566,6 +624,21 @@ def run_sequences(R, tier, rng, which):
                                 kl(np.array([f(np.array(r, dtype=dt)) for r in Xn])), kl([np.array(r, dtype=dt) for r in Xn])]
                     C.cmp(f"{meth} {tag}", "reduce-mutate-reduce/" + meth, nt, seq, spec,
                           py=f"a = RaggedArray({X}, dtype='{dt}'); a.{meth}(axis=-1); <{how}>; a.{meth}(axis=-1)  (first result, array after the read, second result, array)")
+            if which == "reduce" and how == "setitem":
+                FIRST = ("sum", "prod", "mean", "any", "all", "max", "min")
+                SECOND = ("argmax", "argmin", "max", "min", "sum", "mean")
+                for m1 in FIRST:
+                    for m2 in SECOND:
+                        if 0 in ls and (m1 in ("max", "min", "mean") or m2 in ("argmax", "argmin", "max", "min", "mean")): continue
+                        f2 = getattr(np, m2)
+                        # floats that are not exactly summable: a column rebuilt by differences and running sums would not compare equal
+                        # (only where the second operation is exact: the order of a floating-point summation is numpy's business)
+                        X2 = fill(ls, [0.1, 0.7, 0.3, 0.2, 1e16, 0.9, 0.4, 2.0], si) if dt.startswith("float") and m2 in ("argmax", "argmin", "max", "min") else X
+                        def seq2():
+                            a = RA(X2, dt); getattr(a, m1)(axis=-1)
+                            return kl(getattr(a, m2)(axis=-1))
+                        C.cmp(f"{m1} then {m2} {dt} {ls}", "reduce-then-reduce/" + m2, nt, seq2, lambda: kl(np.array([f2(np.array(r, dtype=dt)) for r in X2])),
+                              py=f"a = RaggedArray({X2}, dtype='{dt}'); a.{m1}(axis=-1); a.{m2}(axis=-1)")
             if which == "scan":
                 ops = [("cumsum", lambda a: np.cumsum(a, axis=-1), lambda r: np.cumsum(r))] if dt.startswith(("int", "uint")) else []
                 ops += [("add.accumulate", lambda a: np.add.accumulate(a, axis=-1), lambda r: np.add.accumulate(r)), ("sort", lambda a: a.sort(axis=-1), lambda r: np.sort(r, kind="stable")),
